@@ -72,8 +72,10 @@ def run(tier: str, replay=None) -> int:
     sched_seen = set()
     inj_total = 0
     for rd in range(rounds):
-        n = rng.randint(8, 20)
-        names = rng.sample(short, n) + rng.sample(compounds, min(3, len(compounds)))
+        # one round is LARGE (work may be handed out in batches once there are many tasks per core)
+        big = (rd == 1)
+        n = rng.randint(8, 20) if not big else 9 * (os.cpu_count() or 16)
+        names = rng.sample(short, min(n, len(short))) + rng.sample(compounds, min(3, len(compounds)))
         rng.shuffle(names)
         tasks = {}
         for nm in names:
@@ -85,8 +87,18 @@ def run(tier: str, replay=None) -> int:
             slow = beh[rng.choice(longs)][0]
             fast = beh[rng.choice(short)][0]
             tasks[f"SKEW_{rd}_{k}"] = [slow, fast] if k < 2 else [fast, slow, fast]
+        # the same text under several names, and the same text split differently: a compound [p1, p2], a twin with the
+        # same parts, and a single-part behaviour whose text is p1 + p2 (the start rule accepts a statement sequence)
+        for k, cn in enumerate(rng.sample(compounds, min(2, len(compounds)))):
+            parts = list(beh[cn])
+            tasks[f"TWIN_{rd}_{k}"] = list(parts)
+            tasks[f"JOIN_{rd}_{k}"] = ["".join(parts)]
+            tasks[cn] = parts
+        one = beh[rng.choice(short)][0]
+        tasks[f"SAME_{rd}_a"] = [one]
+        tasks[f"SAME_{rd}_b"] = [one]
         # inject broken behaviours: whole-broken, broken later part after a good one, broken first part
-        for k in range(rng.randint(1, 4)):
+        for k in range(rng.randint(1, 4) if not big else 12):
             kind = rng.choice(["single", "second", "first"])
             good = beh[rng.choice(short)][0]
             bad = rng.choice(BROKEN)
